@@ -167,16 +167,21 @@ inductive Shape
   | L | num (d : List Char) | wL (w : Char) | nth (w n : Char)
   deriving DecidableEq, Repr
 
-def shape (cs : List Char) : Option Shape :=
+/-- `[c]` → c -/
+def single (cs : List Char) : Option Char :=
   match cs with
-  | ['*'] => some .star
-  | '*' :: '/' :: ds => if allDigits ds then some (.starStep ds) else none
-  | ['L'] => some .L
-  | [w, 'L'] => if '1' ≤ w && w ≤ '7' then some (.wL w) else none
-  | [w, '#', n] => if '1' ≤ w && w ≤ '7' && '1' ≤ n && n ≤ '5' then some (.nth w n) else none
-  | _ =>
+  | [c] => some c
+  | _ => none
+
+/-- which alternative matches; the tests follow the order in which cronParseSpecField takes the text
+    apart ("*", "L", "*/", strings.Split on "-", "/", "#", "L") -/
+def shape (cs : List Char) : Option Shape :=
+  if cs = ['*'] then some .star
+  else if cs = ['L'] then some .L
+  else if cs.head? = some '*' then
+    (if (cs.drop 1).head? = some '/' && allDigits (cs.drop 2) then some (.starStep (cs.drop 2)) else none)
+  else
     match splitOn '-' cs with
-    | [d] => if allDigits d then some (.num d) else none
     | [a, r] =>
       if allDigits a then
         match splitOn '/' r with
@@ -184,6 +189,21 @@ def shape (cs : List Char) : Option Shape :=
         | [b, s] => if allDigits b && allDigits s then some (.rangeStep a b s) else none
         | _ => none
       else none
+    | [d] =>
+      match splitOn '#' d with
+      | [w, n] =>
+        match single w, single n with
+        | some w, some n => if '1' ≤ w && w ≤ '7' && '1' ≤ n && n ≤ '5' then some (.nth w n) else none
+        | _, _ => none
+      | [x] =>
+        match splitOn 'L' x with
+        | [w, e] =>
+          match single w with
+          | some w => if e.isEmpty && '1' ≤ w && w ≤ '7' then some (.wL w) else none
+          | none => none
+        | [y] => if allDigits y then some (.num y) else none
+        | _ => none
+      | _ => none
     | _ => none
 
 /-- does cronField<k>.reg have this alternative -/
